@@ -164,6 +164,9 @@ M_C07(pre, a, obs, post) ==
       \*  requests; a {sub} of a user whose want lacks J un-self-bans, i.e. changes that user's own want)
       \cup If(wantChanged => u = actor \/ strippedOwner
                              \/ (a.a = "Reload" /\ a.t = t /\ \E x \in AttOf(pre.cache[t]) : x.u = u), "WantChangedOnlyBySelf")
+      \* only the owner can grant ownership: O enters somebody else's grant only at the request of the effective owner
+      \cup If(gPost.st = "live" /\ u # actor /\ "O" \in M(gPost.given) /\ ~(gPre.st = "live" /\ "O" \in M(gPre.given)) /\ Live(pre, t)
+              => "O" \in actorMode, "OnlyOwnerGrantsOwnership")
       \* sharers can only invite with default access; explicit grants need A or O
       \cup If(newRow /\ u # actor => IsSharer(actorMode), "InviteNeedsSharer")
       \cup If(newRow /\ u # actor /\ ~IsAdmin(actorMode) => M(gPost.given) = M(pre.topics[t].auth) \cup {"J"}, "SharerInvitesWithDefaultOnly")
